@@ -35,7 +35,7 @@ var c08Ops = []string{"D", "V", "A", "P", "C", "oIf", "oIfInit", "oElse", "oFor"
 
 // a second alphabet: the openers whose HEADER declares the name (for name := ..., for name := range,
 // for _, name := range, if name := ...); enumerated one step shorter
-var c08OpsHeader = []string{"D", "V", "A", "P", "C", "oIfInit", "oForInit", "oRangeKey", "oRangeVal"}
+var c08OpsHeader = []string{"D", "V", "A", "P", "C", "oIfInit", "oIfInitElse", "oForInit", "oRangeKey", "oRangeVal"}
 
 func c08Sequences(maxLen int) [][]string { return c08SequencesOver(c08Ops, maxLen) }
 
@@ -69,7 +69,7 @@ func c08SequencesOver(ops []string, maxLen int) [][]string {
 				if depth == 0 {
 					continue
 				}
-				if last := prefix[len(prefix)-1]; strings.HasPrefix(last, "o") && last != "oIfInit" && last != "oForInit" && last != "oRangeKey" && last != "oRangeVal" {
+				if last := prefix[len(prefix)-1]; strings.HasPrefix(last, "o") && last != "oIfInit" && last != "oIfInitElse" && last != "oForInit" && last != "oRangeKey" && last != "oRangeVal" {
 					continue // an empty block tells nothing
 				}
 				rec(append(prefix, op), depth-1, declared[:len(declared)-1], hasInnerDecl)
@@ -79,7 +79,7 @@ func c08SequencesOver(ops []string, maxLen int) [][]string {
 				}
 				d2 := append(append([]int{}, declared...), 0)
 				inner := hasInnerDecl
-				if op == "oIfInit" || op == "oForInit" || op == "oRangeKey" || op == "oRangeVal" {
+				if op == "oIfInit" || op == "oIfInitElse" || op == "oForInit" || op == "oRangeKey" || op == "oRangeVal" {
 					inner = true
 				}
 				rec(append(prefix, op), depth+1, d2, inner)
@@ -193,6 +193,26 @@ func c08Build(seq []string, name string, id string) *Prog {
 			}
 			stack = append(stack, &frame{wrap: func(b []*S) *S {
 				return &S{K: "if", Init: init, Cond: cmp(">", x(), lit(TInt, 0)), Then: append(append([]*S{{K: "print", Ln: true, Exprs: []*E{{K: "str", Ty: TString, S: "i"}, x()}}}, use...), b...)}
+			}})
+		case "oIfInitElse":
+			// the variable of the init statement is in scope in the else-if condition and in the else parts, where the body goes
+			init := declStmt(declName, next())
+			var use []*S
+			if len(init.Names) == 2 {
+				for _, n := range init.Names {
+					if n != declName {
+						use = append(use, &S{K: "assign", Lhs: []*E{{K: "blank", Ty: TInt}}, Exprs: []*E{v(n, TInt)}})
+					}
+				}
+			}
+			if name == "fmtS" {
+				init = &S{K: "decl", Names: []string{"fmt"}, Exprs: []*E{newS("T", "N", next())}}
+			}
+			stack = append(stack, &frame{wrap: func(b []*S) *S {
+				never := []*S{{K: "print", Ln: true, Exprs: []*E{{K: "str", Ty: TString, S: "never"}, x()}}}
+				inner := &S{K: "if", Cond: cmp(">", x(), lit(TInt, 1000000)), Then: never, HasElse: true,
+					Else: append(append([]*S{{K: "print", Ln: true, Exprs: []*E{{K: "str", Ty: TString, S: "ie"}, x()}}}, use...), b...)}
+				return &S{K: "if", Init: init, Cond: cmp("<", x(), lit(TInt, 0)), Then: never, HasElse: true, Else: []*S{inner}}
 			}})
 		case "oElse":
 			stack = append(stack, &frame{wrap: func(b []*S) *S {
@@ -343,7 +363,7 @@ func checkC08(c *Ctx) {
 	r := rand.New(rand.NewSource(c.Seed))
 	nr := c.pick(200, 4000)
 	for i := 0; i < nr; i++ {
-		g := NewGen(r, GenOpts{MaxStmts: 40, MaxDepth: 4, Funcs: 2, Strings: true})
+		g := NewGen(r, GenOpts{MaxStmts: 40, MaxDepth: 4, Funcs: 2, Strings: true, FuncLits: i%2 == 1})
 		g.shadowBias = true
 		progs = append(progs, g.Program(fmt.Sprintf("c08-rand-%d", i)))
 	}
